@@ -366,6 +366,13 @@ func c13Chart(c *Ctx, gd *Module) {
 	for _, a := range appends {
 		base, el, ok := appendedElems(a)
 		if !ok || len(el) != 1 {
+			// reports = append(reports, dailyReports...): the whole day's slice at once
+			if args := argsOf(a); len(args) == 2 && strings.Contains(describe(args[1]), "readMergedReports(") {
+				toReports = true
+				nList++
+				listBases[describe(args[0])] = true
+				continue
+			}
 			others = append(others, a)
 			continue
 		}
